@@ -481,8 +481,13 @@ class Runner:
                 if r is not None:
                     v = "wrongret"
             elif name == "Log":
+                env.style = getattr(env, "style", env.wit) + 1
                 if op["ty"] == "M":
-                    env.M.log(x=VAL["x"])
+                    # the two spellings of a typed message
+                    if env.style % 2:
+                        env.M.log(x=VAL["x"])
+                    else:
+                        env.M(x=VAL["x"]).write()
                 elif op["ty"] == "N":
                     env.N.log(n=3)
                 elif op["ty"] == "N0":
@@ -491,9 +496,27 @@ class Runner:
                     env.hostile_n += 1
                     log_message(message_type="h", hv=HOSTILE[env.hostile_n % len(HOSTILE)]())
                 else:
-                    log_message(message_type=op["ty"], mf=VAL["mf"], **env.collide())
+                    # every public way of logging a message in the current context
+                    from eliot import Message
+                    style = env.style % 5
+                    if style == 0:
+                        Message.log(message_type=op["ty"], mf=VAL["mf"])
+                    elif style == 1:
+                        Message.new(message_type=op["ty"]).bind(mf=VAL["mf"]).write()
+                    elif style == 2 and current_action() is not None:
+                        current_action().log(message_type=op["ty"], mf=VAL["mf"])
+                    elif style == 3:
+                        import logging
+                        # (not the stdlib bridge: that has its own message type) -- the positional form
+                        log_message(op["ty"], mf=VAL["mf"])
+                    else:
+                        log_message(message_type=op["ty"], mf=VAL["mf"], **env.collide())
             elif name == "ActionLog":
-                env.acts[op["a"] - 1].log(message_type=op["ty"], mf=VAL["mf"], **env.collide())
+                from eliot import Message
+                if getattr(env, "style", 0) % 2:
+                    Message.new(message_type=op["ty"], mf=VAL["mf"]).write(action=env.acts[op["a"] - 1])
+                else:
+                    env.acts[op["a"] - 1].log(message_type=op["ty"], mf=VAL["mf"], **env.collide())
             elif name == "AddSuccess":
                 env.acts[op["a"] - 1].add_success_fields(**{op["f"]: VAL[op["f"]]})
             elif name == "RawWrite":
